@@ -24,10 +24,20 @@ func init() {
 	})
 }
 
-func c23Judge(r *core.Run, c *core.Case, p *gen.NSProgram, res c22Result) {
+// c23Judge returns the C23 violations of one run; record=false (shrinking)
+// leaves the evidence counters alone.
+func c23Judge(r *core.Run, p *gen.NSProgram, res c22Result, record bool) []c22Violation {
+	var out []c22Violation
+	count := func(k string) {
+		if record {
+			r.Count(k, 1)
+		}
+	}
 	if res.err != nil {
-		r.Eval(p.Shape(), false)
-		return
+		if record {
+			r.Eval(p.Shape(), false)
+		}
+		return nil
 	}
 	type pair struct{ acc, asset string }
 	bound := map[pair]*big.Int{}
@@ -72,12 +82,12 @@ func c23Judge(r *core.Run, c *core.Case, p *gen.NSProgram, res c22Result) {
 	nontrivial := false
 	for k, b := range bound {
 		if unbounded[k] {
-			r.Count("pairs_skipped_also_unbounded", 1)
+			count("pairs_skipped_also_unbounded")
 			continue
 		}
-		r.Count("bounded_sources_judged", 1)
+		count("bounded_sources_judged")
 		if b.Sign() > 0 {
-			r.Count("bounded_sources_with_overdraft_judged", 1)
+			count("bounded_sources_with_overdraft_judged")
 		}
 		initial := p.World.Balance(k.acc, k.asset)
 		final := new(big.Int).Add(initial, get(k))
@@ -86,16 +96,16 @@ func c23Judge(r *core.Run, c *core.Case, p *gen.NSProgram, res c22Result) {
 			floor = initial
 		}
 		if initial.Sign() < 0 {
-			r.Count("bounded_sources_initially_negative", 1)
+			count("bounded_sources_initially_negative")
 		}
 		if debited[k] {
 			nontrivial = true
-			r.Count("bounded_sources_debited", 1)
+			count("bounded_sources_debited")
 			if final.Sign() < 0 {
-				r.Count("bounded_sources_ending_negative", 1)
+				count("bounded_sources_ending_negative")
 			}
 			if final.Cmp(floor) == 0 {
-				r.Count("bounded_sources_ending_exactly_at_floor", 1)
+				count("bounded_sources_ending_exactly_at_floor")
 			}
 		}
 		if final.Cmp(floor) < 0 {
@@ -103,12 +113,15 @@ func c23Judge(r *core.Run, c *core.Case, p *gen.NSProgram, res c22Result) {
 			if b.Sign() > 0 {
 				kind = "allowing overdraft up to X"
 			}
-			c.Violation(fmt.Sprintf("C23/bounded source ends below min(initial, -bound) (%s)", kind), map[string]any{
+			out = append(out, c22Violation{fmt.Sprintf("C23/bounded source ends below min(initial, -bound) (%s)", kind), map[string]any{
 				"program": p.Text, "vars": p.Vars, "balances": p.World.Balances, "meta": p.World.Meta,
 				"postings": c22PostingsJSON(res.postings), "sends": p.Sends,
 				"account": k.acc, "asset": k.asset, "initial": initial.String(), "bound": b.String(), "final": final.String(), "floor": floor.String(),
-			})
+			}, ""})
 		}
 	}
-	r.Eval(p.Shape(), nontrivial)
+	if record {
+		r.Eval(p.Shape(), nontrivial)
+	}
+	return out
 }
